@@ -428,6 +428,23 @@ def eval_rekey(case):
                     obj.match("0" * digits if old_code != "0" * digits else "1" * digits, t, window=0)
                 except exc.TokenError:
                     pass
+        if case.get("copy"):
+            # a COPY of the live object gets the new key: from then on two objects, two keys -- whichever generates first
+            import copy as _copy
+
+            dup = (_copy.copy if case["copy"] == "copy" else _copy.deepcopy)(obj)
+            dup.key = keys[1]
+            pairs = [("original", obj, keys[0]), ("copy", dup, keys[1])]
+            if case.get("order") == "copy_first":
+                pairs.reverse()
+            for who, o, k in pairs:
+                got = o.generate(t).token
+                want = R.hotp(k, c, digits, alg)
+                if got != want:
+                    out.append((f"C14|rekey|{case['copy']}:{who}:wrong_code", f"after {case['pre']}, dup = {case['copy']}(obj), dup.key = <new key> ({case.get('order')}): the {who} generates {got!r} at counter {c}, its own key gives {want!r}"))
+                if o.key != k:
+                    out.append((f"C14|rekey|{case['copy']}:{who}:wrong_key", f"the {who} reports another key"))
+            return out
         obj.key = keys[1]
         codes = [R.hotp(keys[1], k, digits, alg) for k in range(max(0, c - 3), c + 4)]
         for label, code, expect_match in (("new_key_code", new_code, True), ("old_key_code", old_code, old_code in codes)):
@@ -493,13 +510,16 @@ def work(task):
                 for n in range(0, 3):
                     for pre in itertools.product(("generate", "match", "mismatch"), repeat=n):
                         for t in (0, 59, 1111111109):
-                            case = {"kind": "rekey", "keys": keys, "alg": alg, "digits": digits, "period": period, "window": window, "pre": list(pre), "t": t}
-                            acc.ev()
-                            acc.cls("rekey", alg, digits, period, window, "/".join(pre), t)
-                            found = eval_rekey(case)
-                            for k, d in found:
-                                acc.violation(k, d, case)
-                            acc.outcome("violation" if found else "ok:rekey")
+                            for cp, order in ((None, None), ("copy", "orig_first"), ("copy", "copy_first"), ("deepcopy", "orig_first")):
+                                case = {"kind": "rekey", "keys": keys, "alg": alg, "digits": digits, "period": period, "window": window, "pre": list(pre), "t": t}
+                                if cp:
+                                    case.update(copy=cp, order=order)
+                                acc.ev()
+                                acc.cls("rekey", alg, digits, period, window, "/".join(pre), t, cp, order)
+                                found = eval_rekey(case)
+                                for k, d in found:
+                                    acc.violation(k, d, case)
+                                acc.outcome("violation" if found else "ok:rekey")
         acc.axis("part", "rekey")
         return acc
     acc = Acc()
